@@ -96,8 +96,17 @@ class C05:
         try:
             self.ctl.cmd("FLUSHALL")
         except (Closed, OSError, TimeoutError):
-            self.ctl = self.srv.client()
-            self.ctl.cmd("FLUSHALL")
+            try:
+                self.ctl = self.srv.client()
+                self.ctl.cmd("FLUSHALL")
+            except (Closed, OSError, TimeoutError):
+                # the process was dying when `alive()` looked (killed by the previous input: the missing replies were
+                # recorded there): start a new one
+                self.server_deaths = getattr(self, "server_deaths", 0) + 1
+                self.srv.stop()
+                self.srv = Server("c05")
+                self.ctl = self.srv.client()
+                self.ctl.cmd("FLUSHALL")
         assert self.model.ask("reset") == "ok"
 
     def send_segments(self, segs):
@@ -398,6 +407,9 @@ def main(tier, seed):
     finally:
         c.close()
     rep.traces_validated = rep.evaluations
+    rep.extra["server_deaths"] = getattr(c, "server_deaths", 0)
+    if getattr(c, "server_deaths", 0) and not c.oracle_failures:
+        c.oracle_failures.append({"why": "the server process died %d time(s) during the run (requests lost their replies)" % c.server_deaths})
     new_fail, seen = [], {}
     for det in c.oracle_failures:
         f = classify(det, c.findings)
